@@ -179,6 +179,7 @@ func cmdRun(args []string) int {
 			v *eng.Violation
 			s *eng.Sample
 			h string
+			more []*eng.Violation // further violations with the very same model (same replay file)
 		}
 		pend := map[string]*pending{}
 		tmpSamples, _ := os.MkdirTemp("", "vcheck-samples-")
@@ -222,6 +223,10 @@ func cmdRun(args []string) int {
 					Failed: map[string]string{"kind": v.Kind, "label": v.Label, "pos": v.Pos}, Expect: "fail:" + v.Label})
 				if err == nil {
 					v.Replay = p
+					if old := pend[p]; old != nil && old.v != nil {
+						old.more = append(old.more, v)
+						continue
+					}
 					byPkg[pk] = append(byPkg[pk], p)
 					pend[p] = &pending{v: v, h: r.Name}
 				}
@@ -250,6 +255,10 @@ func cmdRun(args []string) int {
 						p.v.ReplayOut += " | " + tailLines(o.Output, 15)
 					}
 					p.v.Reproduced = reproduced(p.v, o)
+					for _, v2 := range p.more {
+						v2.ReplayOut = p.v.ReplayOut
+						v2.Reproduced = reproduced(v2, o)
+					}
 				} else if p.s != nil {
 					if o.OK && o.Covered[p.s.Cover] && len(o.Failed) == 0 && o.Panicked == "" {
 						p.s.ValidatedNatively = true
